@@ -114,7 +114,7 @@ def run(ctx):
         r_km = float(np.linalg.norm(arr[:3]))
         return (not np.all(np.isfinite(arr))) or r_km < 6378.135 * (1 - 1e-9), r_km
 
-    for k in range(ctx.n(14, 60)):
+    for k in range(ctx.n(20, 80)):
         f = tlegen.random_fields(ctx.rng)
         f["mm"] = ctx.rng.uniform(12.8, 14.6)
         a_km = (8681663.653 / f["mm"]) ** (2.0 / 3.0)
@@ -123,7 +123,7 @@ def run(ctx):
         # the short-period radius correction lowers the radius for cos^2 i > 1/3 and raises it otherwise: both sides
         f["inc"] = ctx.rng.choice([ctx.rng.uniform(3, 50), ctx.rng.uniform(3, 50), ctx.rng.uniform(130, 177), ctx.rng.uniform(55, 125)])
         f["bstar"] = (ctx.rng.randint(20000, 99999), -1, " ")
-        if k % 3 == 2:
+        if k % 2 == 1:
             # second family: nearly circular, low, strong drag -- the modelled eccentricity runs below -1e-3 before the
             # radius does anything (the ValueError guard of _calculate_e)
             f["mm"] = ctx.rng.uniform(15.2, 15.9)
